@@ -8,9 +8,10 @@ if [ "$cmd" = confirm ]; then
   cd $wt || exit 2
   echo "== tests with change"; PYTHONPATH=$wt /venv/bin/python -m pytest -q -p no:cacheprovider tests 2>&1 | tail -1
   echo "== demo with change (must fail)"; /venv/bin/python demo.py >/dev/null 2>&1; echo "rc=$?"
-  git stash -q -- pycparser
+  git diff -- pycparser | diff -q - patch.diff >/dev/null || echo "WARNING: worktree diff differs from patch.diff"
+  git apply -R patch.diff
   echo "== demo without change (must pass)"; /venv/bin/python demo.py >/dev/null 2>&1; echo "rc=$?"
-  git stash pop -q
+  git apply patch.diff
   git diff --stat -- pycparser | tail -1
 elif [ "$cmd" = run ]; then
   patch=$1; shift
